@@ -292,6 +292,8 @@ class Interp:
         self.try_depth = 0
         self.hooks: Dict[str, Callable] = {}
         self.unmodelled: set = set()
+        self.nonnull: set = set()  # terms known not to be None (rule-level precondition)
+        self.assume_true: List[Callable] = []  # conditions taken as true (stated assumptions of a rule)
         self.dataset_wraps: List[Tuple[str, str]] = []
         self.type_hints: Dict[Any, str] = {}
 
@@ -475,8 +477,7 @@ class Interp:
             if is_term(c2) and c2 != TRUE_T:
                 falsified[c2] = False
                 falsified[c] = False
-                if fname(c2) == "not_":
-                    falsified[c2.args[0]] = True
+                falsified[NOT(c2)] = True
         rets = simp
         if flow.env is not None:
             rets.append((TRUE_T, None))
@@ -934,7 +935,7 @@ class Interp:
         return CMP(kind, ta, tb)
 
     def nonnull_hint(self, a) -> bool:
-        return False
+        return a in self.nonnull
 
     def contains(self, container, item, env, node):
         if isinstance(container, dict):
@@ -1357,6 +1358,14 @@ class Interp:
         t = truth(c)
         if t is not None or not is_term(c):
             return t
+        for pred in self.assume_true:
+            try:
+                if pred(c):
+                    return True
+                if pred(NOT(c)):
+                    return False
+            except Exception:
+                pass
         facts = set(env.pathcond.args) if fname(env.pathcond) == "and_" else {env.pathcond}
         if c in facts:
             return True
